@@ -59,8 +59,9 @@ def run(out: common.Outcome):
     rnd = random.Random(out.seed + 14)
     model = Model()
     corr = Corr(out, model, rnd)
-    out.coverage["source_pin"] = common.source_hash(PINS)
+    common.pins_changed(out, PINS)
     n = 300 if out.tier == "quick" else 6000
+    n = int(n * out.boost)
     jobs = [gen(rnd) for _ in range(n)]
     res = run_jobs("drive_pure.py", jobs, nproc=8)
     inputs, obs = [], []
